@@ -20,7 +20,7 @@ import (
 )
 
 func usage() {
-	fmt.Fprintln(os.Stderr, "usage: sc replay|record|yang ...")
+	fmt.Fprintln(os.Stderr, "usage: sc replay|record|conc|yang ...")
 	os.Exit(2)
 }
 
@@ -33,6 +33,8 @@ func main() {
 		replay(os.Args[2:])
 	case "record":
 		record(os.Args[2:])
+	case "conc":
+		conc(os.Args[2:])
 	case "yang":
 		yang(os.Args[2:])
 	default:
